@@ -437,7 +437,7 @@ func init() {
 		c.Proofs([]string{"GJS.Props.C08"}, []string{
 			"GJS.Props.C08.string_enum_membership", "GJS.Props.C08.number_enum_membership", "GJS.Props.C08.bool_enum_membership",
 			"GJS.Props.C08.mixed_enum_membership_json", "GJS.Props.C08.wrapped_marshal_roundtrip", "GJS.Props.C08.plain_marshal_roundtrip",
-			"GJS.Props.C08.KF_integer_fraction_coerces",
+			"GJS.Props.C08.KF_integer_fraction_coerces", "GJS.Props.C08.string_enum_method_exact", "GJS.Props.C08.string_enum_method_value", "GJS.Props.C08.string_enum_method_rejects_other_types",
 		})
 		shapes := map[string]M{
 			"strings":       {"enum": []any{"red", "green", "x y"}},
